@@ -7,7 +7,10 @@ import Rpft.Drv.Flow
 import Rpft.Drv.Campaign
 import Rpft.Drv.Infer
 import Rpft.Drv.Uuid
-open Lean Rpft.Drv Rpft.Drv.CampaignD Rpft.Drv.CellD Rpft.Drv.FlowD Rpft.Drv.InferD Rpft.Drv.UuidD
+open Lean Rpft.Drv Rpft.Drv.CampaignD Rpft.Drv.CellD Rpft.Drv.DataOpsD Rpft.Drv.FlowD Rpft.Drv.IndexD Rpft.Drv.InferD Rpft.Drv.UuidD
+import Rpft.Drv.DataOps
+import Rpft.Drv.Index
+open Lean Rpft.Drv Rpft.Drv.CampaignD Rpft.Drv.CellD Rpft.Drv.DataOpsD Rpft.Drv.FlowD Rpft.Drv.IndexD Rpft.Drv.InferD Rpft.Drv.UuidD
 
 def dispatch (j : Json) : Except String Json := do
   let opj ← j.getObjVal? "op"
@@ -17,6 +20,8 @@ def dispatch (j : Json) : Except String Json := do
   else if op.startsWith "campaign." || op.startsWith "trigger." then handleCampaign op j
   else if op.startsWith "infer." then handleInfer op j
   else if op.startsWith "uuid." then handleUuid op j
+  else if op.startsWith "dataops." then handleDataOps op j
+  else if op.startsWith "index." then handleIndex op j
   else throw s!"unknown op {op}"
 
 partial def loop (hin : IO.FS.Stream) (hout : IO.FS.Stream) : IO Unit := do
